@@ -119,7 +119,7 @@ PROPS["C10"] = {
     "level": "proof",
     "trusted_base": COMMON_TB + ["/verif/harness/src/c10.rs: BIP-380 descsum algorithm transcribed from the BIP text (INPUT_CHARSET, CHECKSUM_CHARSET, GENERATOR, polymod)"],
     "functions": ["descriptor::checksum::Engine::{input, checksum_chars}", "descriptor::checksum::verify_checksum"],
-    "bounds": {"quick": "every printable-ASCII string of <= 2 characters", "thorough": "<= 3 and <= 5 characters; verify_checksum on every <= 2-character body with every 8-character candidate checksum"},
+    "bounds": {"quick": "every printable-ASCII string of <= 3 characters (all 95 characters, all three character classes, a full class group); verify_checksum on every <= 2-character body with every 8-character candidate checksum", "thorough": "additionally <= 5 characters"},
     "outside": ["error-detection distance of the code on strings longer than the bound (1-/2-character substitutions up to ~500 characters: not decided)", "text round trip of descriptors, miniscripts, policies and keys (display iterators + parsers on heap trees: not reachable, DESIGN §5 C10)"],
     "assumptions": [],
 }
